@@ -1270,22 +1270,39 @@ fn comp_strategy(cfg: &GenCfg, max_named: usize, depth: u32, idx: usize) -> Boxe
         .boxed()
 }
 
-fn enum_strategy(idx: usize) -> BoxedStrategy<EnumDecl> {
+/// Rust keywords (and other names bindgen has to mangle) that are ordinary identifiers in C and C++
+pub const KEYWORD_ENUMERATORS: &[&str] = &["type", "match", "fn", "loop", "mod", "in", "impl", "trait", "use", "pub", "ref", "move", "dyn", "async", "await", "gen", "yield", "where", "as", "let", "unsafe", "Self", "self", "super", "crate", "box", "priv", "u8", "i32", "usize", "f64", "str"];
+
+fn enum_strategy(idx: usize, keyword_names: bool) -> BoxedStrategy<EnumDecl> {
     let val = prop_oneof![
         6 => Just(None),
         4 => (-5i128..40).prop_map(Some),
+        // small pool: repeated values are common
+        3 => (0i128..3).prop_map(Some),
         1 => prop_oneof![Just(i32::MAX as i128), Just(i32::MIN as i128), Just(u32::MAX as i128), Just(i64::MAX as i128), Just(i64::MIN as i128), Just(u64::MAX as i128), Just(1i128 << 32), Just(-1i128), Just(255), Just(256)].prop_map(Some),
     ];
     let int_prims: Vec<Prim> = vec![Prim::UChar, Prim::SChar, Prim::Short, Prim::UShort, Prim::Int, Prim::UInt, Prim::Long, Prim::ULong, Prim::LongLong, Prim::ULongLong, Prim::Char];
     (
-        proptest::collection::vec(val, 1..6),
+        proptest::collection::vec((val, proptest::option::weighted(if keyword_names { 0.12 } else { 0.0 }, 0..KEYWORD_ENUMERATORS.len())), 1..6),
         prop_oneof![5 => Just(None), 1 => (0..int_prims.len()).prop_map(move |i| Some(int_prims[i]))],
         0u8..4,
         0u32..1000,
     )
         .prop_map(move |(vals, underlying, naming, salt)| {
             let base = format!("E{idx}_{salt}");
-            let variants = vals.into_iter().enumerate().map(|(k, v)| (format!("{base}_V{k}"), v)).collect();
+            let variants = vals
+                .into_iter()
+                .enumerate()
+                .map(|(k, (v, kw))| {
+                    (
+                        match kw {
+                            Some(i) => KEYWORD_ENUMERATORS[i].to_string(),
+                            None => format!("{base}_V{k}"),
+                        },
+                        v,
+                    )
+                })
+                .collect();
             let (tag, typedef_name) = match naming {
                 0 => (None, Some(format!("{base}_t"))),
                 _ => (Some(base.clone()), None),
@@ -1299,7 +1316,7 @@ pub fn decl_strategy(cfg: &GenCfg, idx: usize, n: usize) -> BoxedStrategy<Decl> 
     let mut choices: Vec<(u32, BoxedStrategy<Decl>)> = vec![];
     choices.push((10, comp_strategy(cfg, n, 0, idx).prop_map(Decl::Comp).boxed()));
     if cfg.enums {
-        choices.push((3, enum_strategy(idx).prop_map(Decl::Enum).boxed()));
+        choices.push((3, enum_strategy(idx, cfg.keyword_names).prop_map(Decl::Enum).boxed()));
     }
     choices.push((
         3,
